@@ -73,7 +73,13 @@ func c01rRun(t *testing.T, out *vh.Out, op string, port string) {
 	utf8 := toks[8] == "1"
 	forms := toks[9]
 
+	// the port was free when the test started; if it is somebody's source port by now take another
+	// one (the target is told the port per case)
 	srv, err := vsmtp.Start("127.0.0.1:"+port, utf8, false)
+	for try := 0; err != nil && try < 50; try++ {
+		port = vsmtp.FreePort()
+		srv, err = vsmtp.Start("127.0.0.1:"+port, utf8, false)
+	}
 	if err != nil {
 		t.Fatal(err)
 	}
